@@ -32,3 +32,10 @@ PROP['rule'] += (' || c08_tls13_keyed: input = (victim role, RSA/ECDSA, client-a
                  'truncation at a structural boundary / trailing bytes / bit flips / inconsistent handshake header, record framing and receive chunking); non-trivial = the mutated message was sealed under the right keys and reached a live victim '
                  '(no bad_record_mac); distinct by (role, cert, client-auth, targets, outcome, alert, mutation classes)')
 
+
+# ---- bounded-exhaustive: every short record body length x content type against an established session of every (version, suite, role)
+PROP['targets'] += [
+    dict(name='c08_short_records', src=['props/C08/short_records.cc', 'harness/wraps.c', 'harness/shim.c'], wraps=WRAPS, env={'VERIF_DIR': '/verif'}, enumerate=True,
+         quick=dict(cases=0, secs=90, stride=1), thorough=dict(cases=0, secs=300, stride=1)),
+]
+PROP['rule'] += ' || c08_short_records: index -> (version, suite, role, content type 20..24, body length 0..96) delivered to an established session; non-trivial = every evaluated index'
